@@ -17,7 +17,15 @@ for d in targets:
     if not rebased: patch = os.path.join(d, "patch.diff")
     if sh("git -C /repo status --porcelain --untracked-files=no").stdout.strip():
         print("repo not clean"); sys.exit(9)
-    val = sh(f"/verif/tools/validate_mutant.sh {d}").stdout.strip().split("\n")[-1]
+    import hashlib
+    head = sh("git -C /repo rev-parse HEAD").stdout.strip()
+    cache = os.path.join(d, "validated.json")
+    val = None
+    if os.path.exists(cache):
+        cj = json.load(open(cache))
+        if cj.get("head") == head and cj.get("patch_sha1") == hashlib.sha1(open(patch, "rb").read()).hexdigest(): val = cj["line"]
+    if val is None:
+        val = sh(f"/verif/tools/validate_mutant.sh {d}").stdout.strip().split("\n")[-1]
     ok = ("81 passed" in val) and ("mutant-demo: test result: FAILED" in val) and ("clean-demo: test result: ok" in val)
     if not ok:
         print("NOT VALID", d, val); continue
